@@ -63,7 +63,7 @@ D = {
   ntext="non-trivial = some receiver saw EOFError and a probe (send/isclosed) followed", known="None"),
 "c07": dict(post='ctx.coverage["channel_file_errors"] = cferr\n    ctx.coverage["multichannel_real"] = multi', extra='cferr = gc.chanfile_error_part(ctx, rng)\n    multi = gc.multi_part(ctx, ["C07."])\n    jobs += gc.jobs_for([p for p in progs if len(p["threads"]) == 1], 6 if ctx.quick else 40, 2, ctx.seed + 1, [{"post_yields": True, "worker_backend": "main_thread_only"}])',title="C07 -- remote failures surface as RemoteError on that channel only",
   cfgs='["GW_err"] if ctx.quick else ["GW_err", "GW_cb_recv", "GW_data_big", "GW_all_big"]', mutants='[]',
-  fam="c07_programs(rng, 8 if ctx.quick else 60)", own='["C07.", "C14.false-deadlock"]',
+  fam="c07_programs(rng, 8 if ctx.quick else 60)", own='["C07.", "C14.false-deadlock", "C10.endmarker-missing"]',
   line='["_local_receive", "_local_close", "close", "waitclose", "receive", "_getremoteerror", "executetask", "_executetask"]',
   nontriv='lambda evs: any(e["ev"] == "fin" and e["op"] == "6" for e in evs)',
   rule="failures at every position of generated item streams: raising remote bodies and raising callbacks on either side, channel object alive or dropped, a sibling channel with traffic, hasreceiver() probes",
